@@ -23,10 +23,57 @@ def _norm(s: str) -> str:
     return s.replace(" ", "")
 
 
+def _u(e):
+    return ast.unparse(e) if e is not None else ""
+
+
+def _grp_target(st, nm, pos):
+    """nm is the pos-th key of `for (k0, k1, ..), g in <groupby>` (pos = -1: the group frame g)"""
+    if not (isinstance(st, ast.For) and isinstance(st.target, ast.Tuple) and len(st.target.elts) == 2):
+        return False
+    keys, g = st.target.elts
+    if pos == -1:
+        return isinstance(g, ast.Name) and g.id == nm and isinstance(keys, ast.Tuple)
+    return isinstance(keys, ast.Tuple) and pos < len(keys.elts) and isinstance(keys.elts[pos], ast.Name) and keys.elts[pos].id == nm
+
+
+def _zip_of(v, text):
+    return isinstance(v, ast.ListComp) and text in _u(v.generators[0].iter)
+
+
+# roles of the locals of BMSMap._write_notes (sa/normal.py: with_roles): the rules below name them by role
+BMS_WRITE_ROLES = (
+    ("tm", lambda n, v, st: isinstance(v, ast.Call) and call_name(v) == "from_bpm_changes_offset"),
+    ("sample_map", lambda n, v, st: isinstance(v, ast.DictComp) and "self.samples" in _u(v.generators[0].iter)),
+    ("channel_map", lambda n, v, st: isinstance(v, ast.DictComp) and "config" in _u(v.generators[0].iter)),
+    ("metronome_changes", lambda n, v, st: isinstance(v, ast.ListComp) and ".metronome" in "".join(_u(c) for c in v.generators[0].ifs)),
+    ("snapper", lambda n, v, st: isinstance(v, ast.Call) and call_name(v) == "Snapper"),
+    ("hits", lambda n, v, st: _zip_of(v, "self.hits.offset")),
+    ("hold_heads", lambda n, v, st: _zip_of(v, "self.holds.offset")),
+    ("hold_tails", lambda n, v, st: _zip_of(v, "self.holds.tail_offset")),
+    ("bpms", lambda n, v, st: _zip_of(v, "self.bpms.offset") and "enumerate" in _u(v.generators[0].iter)),
+    ("time_sigs", lambda n, v, st: isinstance(v, ast.ListComp) and "TIME_SIG" in _u(v.elt)),
+    ("df", lambda n, v, st: isinstance(v, ast.Call) and call_name(v) == "DataFrame" and any(k.arg == "columns" and "snap" in _u(k.value) for k in v.keywords)),
+    ("dfgs", lambda n, v, st: isinstance(v, ast.Call) and call_name(v) == "groupby" and v.args and isinstance(v.args[0], ast.List) and len(v.args[0].elts) == 3),
+    ("measure", lambda n, v, st: _grp_target(st, n, 0)),
+    ("channel", lambda n, v, st: _grp_target(st, n, 1)),
+    ("den", lambda n, v, st: _grp_target(st, n, 2)),
+    ("dfg", lambda n, v, st: _grp_target(st, n, -1)),
+    ("seq", lambda n, v, st: isinstance(v, ast.BinOp) and isinstance(v.op, ast.Mult) and isinstance(v.left, ast.List) and len(v.left.elts) == 1 and
+     isinstance(v.left.elts[0], ast.Constant) and isinstance(v.left.elts[0].value, bytes)),
+)
+
+
+def _write_notes_fn(ctx):
+    from ..normal import with_roles
+    return with_roles(ctx.M.nfn(WRITE_NOTES, closures=True), BMS_WRITE_ROLES)
+
+
+
 def families(ctx):
     """name -> (SeqV of (snap, channel, value) tuples, assignment node), plus the DataFrame construction."""
     M = ctx.M
-    fn = M.nfn(WRITE_NOTES, closures=True)
+    fn = _write_notes_fn(ctx)
     F = Flow()
     fam = {}
     frame = None
@@ -150,7 +197,7 @@ def rule_r1(ctx) -> List[R.Inst]:
 def rule_r2(ctx) -> List[R.Inst]:
     M = ctx.M
     rid = "C05.R2"
-    fn = M.nfn(WRITE_NOTES, closures=True)
+    fn = _write_notes_fn(ctx)
     file = M.mods[fn.mod].rel
     inv = c04.inverted_maps(fn.node)
     cfg = [p for p in params_of(fn.node) if "config" in p]
@@ -289,7 +336,7 @@ def rule_r5(ctx) -> List[R.Inst]:
     """line shapes"""
     M = ctx.M
     rid = "C05.R5"
-    fn = M.nfn(WRITE_NOTES, closures=True)
+    fn = _write_notes_fn(ctx)
     file = M.mods[fn.mod].rel
     insts = []
     from .. import sympaths as SP
@@ -405,7 +452,7 @@ def rule_r6(ctx) -> List[R.Inst]:
     """slot arithmetic shape and timing-map provenance of the writer"""
     M = ctx.M
     rid = "C05.R6"
-    fn = M.nfn(WRITE_NOTES, closures=True)
+    fn = _write_notes_fn(ctx)
     file = M.mods[fn.mod].rel
     insts = []
     # tm = from_bpm_changes_offset([BpmChangeOffset(bpm=b.bpm, metronome=b.metronome, offset=b.offset) for b in self.bpms])
